@@ -1,6 +1,7 @@
 import LhasaV.Model.Safe
 import LhasaV.Lemmas.ListProps
 import LhasaV.Lemmas.MessagesProps
+import LhasaV.Lemmas.GenTool
 /-!
 # C18 — archive-derived text printed by the tool is printable ASCII only
 -/
@@ -57,5 +58,23 @@ theorem stderr_printable (cmd : Messages.Cmd) (archive : Array UInt8) (o : Extra
     (answers : Bytes) :
     ∀ b ∈ (Messages.run cmd archive o fs answers).stderr, Safe.printable b ∨ b = 0x0a ∨ b = 0x0d ∨ b = 0x09 :=
   MessagesProps.stderr_printable cmd archive o fs answers
+
+/-- **Translator tie**: what `safe_output` of src/safe.c writes for each byte (evaluated from the working tree on every run,
+`Gen/Tool.lean`) is what the model's `safeOutput` writes; `safeOutput` is byte-wise, so this fixes it on every string. -/
+theorem safe_class_matches_source :
+    (∀ b : Fin 256, b.val ≠ 0 → (Safe.safeOutput [UInt8.ofNat b.val]).map (·.toNat) = Gen.safeOutputTable.getD b.val [])
+    ∧ ∀ s : Bytes, Safe.safeOutput s = s.flatMap (fun c => Safe.safeOutput [c]) :=
+  ⟨GenTool.safe_class_matches_source, GenTool.safeOutput_bytewise⟩
+
+/-- **Translator tie**: `os_type_to_string` of src/list.c (the one archive-derived field printed without `safe_printf`),
+evaluated from the working tree for all 256 identifier bytes, is the model's `osTypeToString` – so every name it can
+print is one of the model's printable literals. -/
+theorem os_names_match_source :
+    ∀ b : Fin 256, (ListOut.str (ListOut.osTypeToString b.val)).map (·.toNat) = Gen.osTypeStrings.getD b.val [] :=
+  GenTool.os_names_match_source
+
+/-- `MAX_PROGRESS_LEN` of src/extract.c as regenerated = the width the progress-bar model uses -/
+theorem progress_len_matches_source : Messages.maxProgressLen = Gen.maxProgressLen :=
+  GenTool.progress_len_matches_source
 
 end LhasaV.Props.C18
